@@ -134,6 +134,10 @@ func c14Verdict(c *kit.Case, cdc *cdcCodec, s []byte, seg types.HashSegmentMap, 
 	if id, d := c14Known(cdc, s, seg, obs, msg); id != "" {
 		c.Known(id, d+" | "+detail)
 	}
+	for _, lax := range []string{"", "impl+strictblob", "workitem+strictblob", "storage+strictblob", "operand+strictblob"} {
+		n, rj := cdcRefDecode(cdc, s, seg, lax)
+		detail += fmt.Sprintf(" | reference[%s]: consumed %d, %s", lax, n, rj.String())
+	}
 	c.Failf("%s", detail)
 }
 
@@ -163,7 +167,7 @@ func c14Known(cdc *cdcCodec, s []byte, seg types.HashSegmentMap, obs, msg string
 		return "KF-C14-1", "length prefix larger than the remaining input reaches make(): " + rej.String()
 	}
 	if isMake {
-		for _, lax := range []string{"impl", "workitem", "storage", "operand"} {
+		for _, lax := range []string{"impl+strictblob", "workitem+strictblob", "storage+strictblob", "operand+strictblob"} {
 			if _, lr := cdcRefDecode(cdc, s, seg, lax); lr != nil && lr.Reason == typegen.RCountTooBig && name != "Ancestry" && !strings.HasSuffix(lr.Path, ".Ancestry") {
 				return "KF-C14-1", "length prefix larger than the remaining input reaches make(), at the position reached under the implementation's own (tolerant) grammar, mode '" + lax + "': " + lr.String()
 			}
